@@ -26,9 +26,19 @@ func (b *BPM) UnmarshalYAML(value *yaml.Node) error {
 	return b.validate()
 }
 
+const (
+	// a MIDI tempo is 60,000,000 / bpm microseconds per quarter note in 24 bits,
+	// a bpm outside this range would be written as 0 microseconds (an infinite tempo)
+	minBPM = 4
+	maxBPM = 60000000
+)
+
 func (b BPM) validate() error {
 	if b == 0 {
 		return errorx.Invalid("BPM should be positive")
+	}
+	if b < minBPM || b > maxBPM {
+		return errorx.Invalid("BPM should be between %d and %d", minBPM, maxBPM)
 	}
 	return nil
 }
